@@ -72,6 +72,109 @@ structure Stats where
   maxGroups : Nat := 0
   maxMembers : Nat := 0
 
+
+/-! ### monitors of the pure sub-protocols -/
+
+def isDigit (c : Char) : Bool := 48 ≤ c.toNat ∧ c.toNat ≤ 57
+
+/-- canonical decimal: digits only, no leading zero unless the number is 0, value below 2^64 -/
+def canonDecimal (t : List Char) : Bool :=
+  t ≠ [] && t.all isDigit && (t.head? ≠ some '0' || t.length = 1) &&
+    (t.foldl (fun a c => a * 10 + (c.toNat - 48)) 0 < 2 ^ 64)
+
+/-- Rust's `usize::from_str` accepts it: optional `+`, at least one digit, value below 2^64 -/
+def rustUsize (t : List Char) : Bool :=
+  let ds := match t with
+    | '+' :: r => r
+    | r => r
+  ds ≠ [] && ds.all isDigit && (ds.foldl (fun a c => a * 10 + (c.toNat - 48)) 0 < 2 ^ 64)
+
+/-- the label texts of the first sentence of C17 -/
+def legalText (t : List Char) : Bool :=
+  1 ≤ t.length && t.length ≤ 8 && t.all (· ≠ ' ') &&
+    (match t with
+     | 'α' :: r => canonDecimal r
+     | _ => true)
+
+/-- label values in canonical form (second sentence of C17) -/
+def canonLabel : Label → Bool
+  | .greek c => c ≠ ' ' && c ≠ 'α'
+  | .alpha n => n < 2 ^ 64
+  | .str a =>
+    let body := a.takeWhile (· ≠ ' ')
+    a.length = 8 && 2 ≤ body.length && body.head? ≠ some 'α' && a = Lb.pad8 body
+
+structure PureMon where
+  seen : List (String × List Char) := []     -- label token -> the legal text that produced it
+  hexLines : Nat := 0
+  concatLines : Nat := 0
+  concatDefect : Nat := 0
+  labelLines : Nat := 0
+  legalTexts : Nat := 0
+  panicsAgreed : Nat := 0
+
+/-- judge a `hex …` or `label …` line; returns rejections as (property, message) -/
+def judgePure (pm : PureMon) (ws : List String) (obs : String) : PureMon × List (String × String) :=
+  let halves := obs.splitOn " ; "
+  let left := halves.headD ""
+  let right := (halves.drop 1).headD ""
+  match ws with
+  | "hex" :: "concat" :: _ =>
+    let pm := { pm with concatLines := pm.concatLines + 1 }
+    if left = right then (pm, []) else ({ pm with concatDefect := pm.concatDefect + 1 }, [("C16", s!"concat gives '{left}', the byte strings give '{right}'")])
+  | "hex" :: "view" :: _ =>
+    let pm := { pm with hexLines := pm.hexLines + 1 }
+    match words left, words right with
+    | ["ok", len, pr, bytes], [olen, obytes] =>
+      let want := match bytesOfHex ((obytes.drop 1).toString) with
+        | some bs => String.ofList (HD.print bs)
+        | none => "?"
+      if len = olen ∧ bytes = obytes ∧ pr = want then (pm, [])
+      else (pm, [("C15", s!"len/print/bytes/to_vec give '{left}', the byte string is '{right}' (print {want})")])
+    | _, _ => (pm, [("C15", s!"len/print/bytes/to_vec give '{left}', the byte string is '{right}'")])
+  | "hex" :: "fromstr" :: _ => (pm, [])
+  | "hex" :: _ =>
+    let pm := { pm with hexLines := pm.hexLines + 1, panicsAgreed := pm.panicsAgreed + (if left = "panic" ∧ right = "panic" then 1 else 0) }
+    if left = right then (pm, []) else (pm, [("C15", s!"Hex answers '{left}', the byte slice answers '{right}'")])
+  | ["label", "parse", t] =>
+    let pm := { pm with labelLines := pm.labelLines + 1 }
+    match parseTextTok t with
+    | none => (pm, [])
+    | some cs =>
+      let o := words obs
+      if o.head? = some "panic" then (pm, [("C17", "from_str panicked")])
+      else if legalText cs then
+        let pm := { pm with legalTexts := pm.legalTexts + 1 }
+        match o with
+        | ["ok", tok, printed] =>
+          if printed ≠ showTextTok cs then (pm, [("C17", s!"legal text prints back as {printed}")])
+          else match pm.seen.find? (fun e => e.1 = tok) with
+            | some (_, other) =>
+              if other = cs then (pm, []) else (pm, [("C17", s!"distinct legal texts {showTextTok other} and {showTextTok cs} give the same label {tok}")])
+            | none => ({ pm with seen := (tok, cs) :: pm.seen }, [])
+        | _ => (pm, [("C17", s!"legal text answered '{obs}'")])
+      else
+        let mustErr : Bool := match cs with
+          | 'α' :: r => !rustUsize r
+          | _ => decide (cs.length > 8)
+        if mustErr = true ∧ o.head? ≠ some "err" then (pm, [("C17", s!"text that must be rejected answered '{obs}'")]) else (pm, [])
+  | ["label", "print", l] =>
+    let pm := { pm with labelLines := pm.labelLines + 1 }
+    match parseLabelTok l with
+    | none => (pm, [])
+    | some lab =>
+      if canonLabel lab then
+        match words obs with
+        | ["ok", _, back] => if back = l then (pm, []) else (pm, [("C17", s!"canonical label {l} prints and parses back as {back}")])
+        | _ => (pm, [("C17", s!"canonical label {l} answered '{obs}'")])
+      else (pm, [])
+  | ["label", "kid", _, l] =>
+    let pm := { pm with labelLines := pm.labelLines + 1 }
+    match parseLabelTok l with
+    | some lab => if canonLabel lab ∧ obs.trimAscii.toString ≠ "ok 1" then (pm, [("C17", s!"edge bound under the parsed name is not found under {l}: '{obs}'")]) else (pm, [])
+    | none => (pm, [])
+  | _ => (pm, [])
+
 structure JSt where
   mons : Array (Option HMon) := #[]
   rejects : Array Reject := #[]
@@ -80,6 +183,7 @@ structure JSt where
   histStart : Nat := 0                 -- line number of the current history's `reset`
   histMark : Stats := {}               -- statistics at that line
   hists : Array String := #[]          -- one summary per finished history
+  pm : PureMon := {}
 
 def JSt.getMon (j : JSt) (h : Nat) : Option HMon := j.mons.getD h none
 def JSt.setMon (j : JSt) (h : Nat) (m : HMon) : JSt :=
@@ -248,6 +352,10 @@ def judgeLine (j : JSt) (lineNo : Nat) (opLine obsLine : String) : JSt :=
       | none => j
     | _, _ => j
   | ["observe", _] => j
+  | "hex" :: _ | "label" :: _ =>
+    let (pm, rej) := judgePure j.pm (words opLine) obsLine
+    let j := { j with pm := pm }
+    rej.foldl (fun j (p, msg) => j.reject p lineNo (opLine.trimAscii.toString ++ ": " ++ msg)) j
   | cmd :: h :: rest =>
     match parseHandle h with
     | none => j
@@ -275,6 +383,9 @@ def judgeLine (j : JSt) (lineNo : Nat) (opLine obsLine : String) : JSt :=
             | .add v => if (a, v) ∈ j.everAlive then j else { j with everAlive := (a, v) :: j.everAlive }
             | _ => j
   | _ => j
+
+def PureMon.json (p : PureMon) : String :=
+  "{" ++ s!"\"hex_lines\":{p.hexLines},\"concat_lines\":{p.concatLines},\"concat_law_failures\":{p.concatDefect},\"label_lines\":{p.labelLines},\"legal_texts\":{p.legalTexts},\"distinct_labels\":{p.seen.length},\"panics_agreed_with_slice\":{p.panicsAgreed}" ++ "}"
 
 def Stats.json (s : Stats) : String :=
   "{" ++ s!"\"histories\":{s.histories},\"calls\":{s.calls},\"judged_calls\":{s.judgedCalls},\"collections\":{s.collections},\"collected_vertices\":{s.collected},\"left_quantifier\":{s.invalidStops},\"panics\":{s.panics},\"next_ids\":{s.nextIds},\"readds\":{s.readds},\"overwriting_puts\":{s.overwrites},\"max_groups\":{s.maxGroups},\"max_members\":{s.maxMembers}" ++ "}"
